@@ -65,8 +65,13 @@ def corpus():
              ["matching", "gnp", "6", ".5", "plantclique", "3", "addedges", "2"], ["php", "glrp", "3", "4", ".5", "addedges", "1"],
              ["tseitin", "randomodd", "gnd", "6", "3"], ["subsetcard", "glrd", "4", "4", "2", "plantbiclique", "2", "2"],
              ["stone", "3", "tree", "2", "--sparse", "2", "-T", "shuffle"], ["domset", "2", "gnp", "3", ".5", "3"]]
+    extra += [["matching", "gnm", "8", "10", "addedges", "3", "splitedges", "2"],
+              ["kcolor", "3", "grid", "3", "3", "splitedges", "2", "addedges", "2"],
+              ["tiling", "gnp", "7", ".4", "plantclique", "3", "addedges", "2", "splitedges", "1"],
+              ["domset", "2", "complete", "4", "splitedges", "3", "addedges", "4"]]
     for t in extra:
         out.append(("cnfgen", t, ""))
+    out.append(("pbgen", ["matching", "gnm", "8", "10", "addedges", "3", "splitedges", "2"], ""))
     for sub, tail in small():
         if is_random(tail) and sub in ("php", "subsetcard", "tseitin", "randkcnf", "randkxor", "kcolor", "stone", "op", "matching"):
             out.append(("pbgen", tail, ""))
@@ -138,8 +143,9 @@ def case_processes(ctx, lo, hi, seeds, verbose_every):
                 if tool == "cnfgen" and tail[0] in ("matching", "kcolor") and "-T" not in tail and i % 3 == 0:
                     argv_tail = argv_tail + ["save", "kthlist", "SAVEPATH"]
                 runs = [("0", cwds[0]), ("1", cwds[1]), ("random", cwds[2])]
-                if ctx.tier == "thorough":
-                    runs.append(("12345", cwds[2]))
+                if ctx.tier == "thorough" or sum(1 for t in argv_tail if t in ("addedges", "splitedges", "plantclique", "plantbiclique")) >= 2:
+                    # string-keyed sets/dicts order differently for few hash seeds only: sweep some more
+                    runs += [(str(h), cwds[h % 3]) for h in (2, 3, 4, 5, 6, 7, 12345)]
                 for k, (hs, cwd) in enumerate(runs):
                     sp = os.path.join(scratch, "saved.kthlist")      # same path every time: it is echoed in the header
                     at = [sp if t == "SAVEPATH" else t for t in argv_tail]
@@ -335,6 +341,21 @@ def case_library(ctx, rseed):
         twice("RandomKCNF", lambda s: g.RandomKCNF(3, 8, 12, seed=s), fstate)
         twice("RandomKCNF[planted]", lambda s: g.RandomKCNF(3, 6, 5, seed=s, planted_assignments=[[1, -2, 3, 4, -5, 6]]), fstate)
         twice("RandomKXOR", lambda s: g.RandomKXOR(3, 8, 6, seed=s), fstate)
+        # the dense sampler: requests at the exact maximum, and requests driven there by the bounded adversary
+        twice("RandomKCNF[max]", lambda s: g.RandomKCNF(2, 4, 24, seed=s), fstate)
+        twice("RandomKCNF[max,3,5]", lambda s: g.RandomKCNF(3, 5, 80, seed=s), fstate)
+        twice("RandomKXOR[max]", lambda s: g.RandomKXOR(2, 5, 20, seed=s), fstate)
+
+        def dense(fn, k, n, m):
+            def run(s):
+                from ..hostile import adversary
+                # unlucky for exactly as long as the sparse loop lasts (10*m rounds of 1 sample + k choices),
+                # fair (seeded with s) from the dense fall-back on
+                with adversary("repeat", 10 * m * (k + 1), s):
+                    return fn(k, n, m)
+            return run
+        twice("RandomKCNF[dense via adversary]", dense(g.RandomKCNF, 2, 5, 12), fstate)
+        twice("RandomKXOR[dense via adversary]", dense(g.RandomKXOR, 2, 5, 8), fstate)
         twice("bipartite_random_left_regular", lambda s: cg.bipartite_random_left_regular(5, 6, 3, seed=s), bstate)
         twice("bipartite_random_regular", lambda s: cg.bipartite_random_regular(6, 4, 2, seed=s), bstate)
         twice("bipartite_random_m_edges", lambda s: cg.bipartite_random_m_edges(4, 4, 9, seed=s), bstate)
@@ -362,7 +383,7 @@ def workload(tier, seed):
     # fresh processes: a slice of the corpus per seed value (all of it in thorough)
     step = 4
     for lo in range(0, n, step):
-        if q and (lo // step + seed) % 4 != 0 and lo + step < n and not any("@" in t for it in corpus()[lo:lo + step] for t in it[1]):
+        if q and (lo // step + seed) % 4 != 0 and lo + step < n and not any("@" in t or t == "splitedges" for it in corpus()[lo:lo + step] for t in it[1]):
             continue              # quick: a quarter of the corpus in fresh processes (rotates with VERIF_SEED), all of it in-process
         if q:
             seeds = [SEEDS[(lo // step + seed) % len(SEEDS)]]
